@@ -437,6 +437,7 @@ func init() {
 				continue
 			}
 			rec := mkRec(id, p, o, dia, isRTL, exact, text, re)
+			probe := newSpecProbe(text, optBits(o, dia, isRTL))
 			for _, s := range g.Inputs(t, *ni, *maxLen, alpha) {
 				b := []byte(string(intsToRunes(s)))
 				if g.chance(*invalid) {
@@ -447,7 +448,7 @@ func init() {
 				}
 				// cost guard (see record-find)
 				runes := []rune(string(b))
-				if cheapest(func() { re.FindRunesMatch(runes) }) > 40_000 {
+				if cheapest(func() { re.FindRunesMatch(runes) }) > 40_000 || (exact && probe.heavy(runes, isRTL)) {
 					skipped++
 					continue
 				}
